@@ -167,11 +167,9 @@ class SplitOperator(LinearOperator):
                     k_tgt += [d]
                     k_slc_by_ax += [slice(None)]
                 elif isinstance(slc[i], slice):
-                    start = slc[i].start if slc[i].start is not None else 0
-                    stop = slc[i].stop if slc[i].stop is not None else d.size
-                    step = slc[i].step if slc[i].step is not None else 1
-                    frac = np.floor((stop - start) / np.abs(step))
-                    k_tgt += [UnstructuredDomain(frac.astype(int))]
+                    # number of entries the slice actually selects
+                    frac = len(range(*slc[i].indices(d.size)))
+                    k_tgt += [UnstructuredDomain(frac)]
                     k_slc_by_ax += [slc[i]]
                 elif isinstance(slc[i],
                                 np.ndarray) and slc[i].dtype is np.dtype(bool):
